@@ -169,10 +169,14 @@ def run_script(fd: Feeder, script, rng):
                 t = tog ^ (1 if it.get("bad_toggle_at") == n else 0)
                 if it.get("stop_after") == n:
                     break
-                r = fd.send(bytes([t << 4 | (7 - ksz) << 1 | (1 if last else 0)]) +
-                            seg.ljust(7, bytes([it.get("padval", 0)])))
+                frame = bytes([t << 4 | (7 - ksz) << 1 | (1 if last else 0)]) + seg.ljust(7, bytes([it.get("padval", 0)]))
+                r = fd.send(frame)
                 n += 1
                 if last or len(r) != 1 or r[0][0] >> 5 != 1:
+                    break
+                if it.get("repeat_at") == n - 1:
+                    # the segment just confirmed once more, byte for byte (its toggle bit is now the wrong one)
+                    fd.send(frame)
                     break
                 tog ^= 1
         else:
